@@ -389,9 +389,10 @@ def _range_denotes(src_bytes, rng, dump):
     sl = sl.replace("\r\n", "\n").replace("\r", "\n")
     if _dump_of("(" + sl + ")") == dump:
         return True
-    # an unparenthesised tuple: both parsers range the virtual parentheses, i.e. from the field's `{` to
-    # one character past the expression text (the `}`, `!`, `:` or `=` that follows it)
-    if sl[:1] == "{" and len(sl) >= 3 and dump.startswith("Tuple(") and _dump_of("(" + sl[1:-1] + ")") == dump:
+    # an unparenthesised tuple or a bare generator expression: both parsers range the virtual parentheses, i.e. from the
+    # field's `{` to one character past the expression text (the `}`, `!`, `:` or `=` that follows it); CPython 3.11:
+    # f'<{a for a in b}>' -> GeneratorExp 3..17, f'<{a, b}>' -> Tuple 3..9
+    if sl[:1] == "{" and len(sl) >= 3 and dump.startswith(("Tuple(", "GeneratorExp(")) and _dump_of("(" + sl[1:-1] + ")") == dump:
         return True
     return False
 
@@ -799,6 +800,7 @@ EXPRS = [
     "'a}b'", "'a{b'", "'='", "'a=b'", "d['k:!}']", 'd["{"]', "x.y(z)[0].w", "yield", "await x", "a @ b", "a ** b", "a // b",
     "a is not b", "a not in b", "a < b < c", "x if y else z if w else v", "f(g(h(1)))", "((x))", "(x)", "[(x)]", "x[(a, b)]",
     "'''s'''", '"""s"""', "'''a\"b'''", "'''a}b{c'''", "'''a''' 'b'", "d['''k''']", "''''''",
+    "a for a in b", "a for a in b if c", "a async for a in b", "a.b for a in b for c in a", "yield x", "yield from x", "*a, b", "a, *b",
     "x  ", "  x", " x ", "a is b", "a in b", "True", "None", "...", "b'x'", "a<=b<=c", "a>=b==c", "a != b != c", "f'{y}'"[:0] + "x.__class__",
 ]
 
